@@ -11,6 +11,7 @@ From SCC Require Import Base.Sexp Lang.SynUtil Lang.FunSyn Lang.FunTy Lang.CoreS
 From SCC Require Import Sem.AxSem Sem.FunSem Sem.FsCheck Sem.CoreCheck Model.Fun2Core Model.Fun2CoreGuard Model.Fun2CoreTyGuard.
 From SCC Require Import Proof.Fun2CoreProof Proof.Fun2CoreTfv Proof.Fun2CoreInv Proof.CoreTyRules Proof.CoreTyFv
      Proof.Fun2CoreTyBase.
+From SCC Require Proof.Fun2CoreUB.
 Import ListNotations.
 Open Scope string_scope.
 Open Scope list_scope.
@@ -62,6 +63,106 @@ Section Share.
   Proof. intros cont ty G st st1 S S1 H Hu Hs G' Hg. apply H. eapply agree_mono; eassumption. Qed.
   Lemma KT_here : forall cont ty G st S, KT cont ty G st S -> ct G CCns ty cont = None.
   Proof. intros cont ty G st S H. apply H. apply agree_refl. Qed.
+
+  (* ---------- the capture check of the repaired translation (fix <commitcap>) never fires on a guarded term:
+     binders that are neither in S nor generated do not occur (by name) in a continuation with the invariant ---------- *)
+  Lemma clookup_filter : forall f G x, (forall b, cbvar b = x -> f b = true) -> clookup (filter f G) x = clookup G x.
+  Proof.
+    intros f G x Hf. induction G as [|a r IH]; [reflexivity|]. cbn [filter clookup].
+    destruct (cident_eqb (cbvar a) x) eqn:E.
+    - apply ceq_id in E. rewrite (Hf a E). cbn [clookup]. apply ceq_id in E. rewrite E. reflexivity.
+    - destruct (f a); [cbn [clookup]; rewrite E|]; exact IH.
+  Qed.
+  Lemma KT_captures : forall cont ty G st S binders,
+    KT cont ty G st S -> (forall v, In v binders -> ~ In v S /\ ~ gen st v) -> captures binders cont = false.
+  Proof.
+    intros cont ty G st S binders HK Hb.
+    set (f := fun b : cbinding => negb (existsb (String.eqb (fst (cbvar b))) binders)).
+    assert (Hag : agree st S (filter f G) G).
+    { intros y Hy. apply clookup_filter. intros b Eb. unfold f. rewrite Eb. simpl. apply negb_true_iff.
+      destruct (existsb (String.eqb y) binders) eqn:E; [|reflexivity]. apply existsb_exists in E. destruct E as [v [Hv Ev]].
+      apply String.eqb_eq in Ev. subst v. destruct (Hb y Hv) as [H1 H2]. destruct Hy; contradiction. }
+    pose proof (HK _ Hag) as Ht. pose proof (fv_lookup_term data codata defs cont _ _ _ Ht) as Hl.
+    unfold captures.
+    match goal with |- ?e = false => destruct e eqn:E; [|reflexivity] end. exfalso.
+    apply existsb_exists in E. destruct E as [v [Hv E]]. apply existsb_exists in E. destruct E as [bb [Hbb E]].
+    apply String.eqb_eq in E.
+    pose proof (Hl bb Hbb) as Hlk. apply clookup_In in Hlk. apply filter_In in Hlk. destruct Hlk as [_ Hf]. unfold f in Hf.
+    apply negb_true_iff in Hf.
+    assert (Ht' : existsb (String.eqb (fst (cbvar bb))) binders = true).
+    { apply existsb_exists. exists v. split; [exact Hv|]. rewrite E. apply String.eqb_refl. }
+    rewrite Ht' in Hf. discriminate Hf.
+  Qed.
+  Lemma guard_capture_KT : forall binders (w : cterm -> M cstmt) lty cont st s st' ty G S,
+    guard_capture false binders w lty cont st = Ok (s, st') -> KT cont ty G st S ->
+    (forall v, In v binders -> ~ In v S /\ ~ gen st v) -> w cont st = Ok (s, st').
+  Proof.
+    intros binders w lty cont st s st' ty G S H HK Hb. unfold guard_capture in H.
+    rewrite (KT_captures cont ty G st S binders HK Hb) in H. exact H.
+  Qed.
+
+  (* ---------- binders whose NAMES do not occur free in the continuation (what the capture check of the repaired
+     translation establishes) do not disturb it, whatever S says about them ---------- *)
+  Lemma clookup_filter_none : forall f G x, (forall b, cbvar b = x -> f b = false) -> clookup (filter f G) x = None.
+  Proof.
+    intros f G x Hf. induction G as [|a r IH]; [reflexivity|]. cbn [filter].
+    destruct (f a) eqn:Ea; [|exact IH]. cbn [clookup].
+    destruct (cident_eqb (cbvar a) x) eqn:E; [|exact IH]. apply ceq_id in E. rewrite (Hf a E) in Ea. discriminate Ea.
+  Qed.
+  Lemma captures_name : forall vs cont, captures vs cont = false ->
+    forall b, In b (fvt cont) -> existsb (String.eqb (fst (cbvar b))) vs = false.
+  Proof.
+    intros vs cont H b Hb. destruct (existsb (String.eqb (fst (cbvar b))) vs) eqn:E; [|reflexivity]. exfalso.
+    apply existsb_exists in E. destruct E as [v [Hv E]].
+    assert (Hc : captures vs cont = true).
+    { unfold captures. apply existsb_exists. exists v. split; [exact Hv|]. apply existsb_exists. exists b. split; [exact Hb | exact E]. }
+    rewrite Hc in H. discriminate H.
+  Qed.
+  Lemma captures_incl : forall vs vs' cont, captures vs cont = false -> incl vs' vs -> captures vs' cont = false.
+  Proof.
+    intros vs vs' cont H Hi. destruct (captures vs' cont) eqn:E; [|reflexivity]. exfalso.
+    unfold captures in E. apply existsb_exists in E. destruct E as [v [Hv E]].
+    assert (Hc : captures vs cont = true) by (unfold captures; apply existsb_exists; exists v; split; [apply Hi; exact Hv | exact E]).
+    rewrite Hc in H. discriminate H.
+  Qed.
+  Lemma captures_sub : forall vs cont k, (forall bb, In bb (fvt k) -> In bb (fvt cont)) ->
+    captures vs cont = false -> captures vs k = false.
+  Proof.
+    intros vs cont k Hs H. destruct (captures vs k) eqn:E; [|reflexivity]. exfalso.
+    unfold captures in E. apply existsb_exists in E. destruct E as [v [Hv E]]. apply existsb_exists in E. destruct E as [bb [Hbb E]].
+    assert (Hc : captures vs cont = true).
+    { unfold captures. apply existsb_exists. exists v. split; [exact Hv|]. apply existsb_exists. exists bb. split; [apply Hs; exact Hbb | exact E]. }
+    rewrite Hc in H. discriminate H.
+  Qed.
+  Lemma KT_rebind : forall cont ty G G1 st S vs,
+    KT cont ty G st S -> captures vs cont = false ->
+    (forall y, In y S \/ gen st y -> ~ In y vs -> clookup G1 (new_id y) = clookup G (new_id y)) ->
+    KT cont ty G1 st S.
+  Proof.
+    intros cont ty G G1 st S vs HK Hc H1 G2 Hag.
+    set (inv := fun b : cbinding => existsb (String.eqb (fst (cbvar b))) vs).
+    set (Gs := filter inv G ++ filter (fun b => negb (inv b)) G2).
+    assert (HGs : agree st S Gs G).
+    { intros y Hy. unfold Gs. rewrite clookup_app. destruct (existsb (String.eqb y) vs) eqn:E.
+      - rewrite (clookup_filter inv G (new_id y)); [|intros b Eb; unfold inv; rewrite Eb; exact E].
+        destruct (clookup G (new_id y)) eqn:El; [reflexivity|]. apply clookup_filter_none.
+        intros b Eb. unfold inv. rewrite Eb. simpl. rewrite E. reflexivity.
+      - rewrite (clookup_filter_none inv G (new_id y)); [|intros b Eb; unfold inv; rewrite Eb; exact E].
+        rewrite clookup_filter; [|intros b Eb; unfold inv; rewrite Eb; simpl; rewrite E; reflexivity].
+        rewrite (Hag y Hy). apply H1; [exact Hy|]. intros Hin.
+        assert (Ht : existsb (String.eqb y) vs = true) by (apply existsb_exists; exists y; split; [exact Hin | apply String.eqb_refl]).
+        rewrite Ht in E. discriminate E. }
+    pose proof (HK _ HGs) as Ht.
+    apply (ctx_agree_term data codata defs cont Gs G2 _ _ Ht).
+    intros b Hb. pose proof (fv_lookup_term data codata defs cont _ _ _ Ht b Hb) as Hl.
+    pose proof (captures_name vs cont Hc b Hb) as Hn.
+    unfold Gs in Hl. rewrite clookup_app in Hl.
+    rewrite (clookup_filter_none inv G (cbvar b)) in Hl; [|intros b' Eb; unfold inv; rewrite Eb; exact Hn].
+    rewrite clookup_filter in Hl; [exact Hl|]. intros b' Eb. unfold inv. rewrite Eb, Hn. reflexivity.
+  Qed.
+  (* a consumer that is typed is a consumer in the sense of the free-variable lemmas *)
+  Lemma ct_cont_cns : forall G ty cont, ct G CCns ty cont = None -> Fun2CoreUB.cont_cns cont.
+  Proof. intros G ty cont H. destruct cont; try exact I. apply ct_mu in H. simpl. tauto. Qed.
 
   (* a binder whose name is neither free in the continuation nor generated does not disturb it *)
   Lemma agree_cons : forall st S b0 v G, cbvar b0 = new_id v -> ~ In v S -> ~ gen st v -> agree st S (b0 :: G) G.
